@@ -91,6 +91,13 @@ theorem rewritten_attempt_is_refused (dialOk : Bytes → Bool) (s : St) (hinv : 
   rw [hi] at eh; injection eh with eh; subst eh
   exact hne th
 
+/-- REGENERATED fact: the condition guarding ErrHostClientRedirectToDifferentScheme is `c.IsTLS != req.URI().isHTTPS()`
+    as far as identifiers go: it reads the HostClient's IsTLS and the scheme of the request URI and NO other field of
+    the request (not where the request came from, not its server-side isTLS flag, not its method or headers).  This is
+    what `hcDo` models: the refusal is a function of (hc.isTLS, scheme) alone. -/
+theorem scheme_check_reads_only_scheme_and_IsTLS :
+    Gen.schemeCheck_cond_idents = ["IsTLS", "URI", "c", "isHTTPS", "req"] := by decide
+
 /-- the scheme check precedes the RoundTrip call among the top-level statements of doNonNilReqResp -/
 def checkBeforeWrite : Bool :=
   match Gen.schemeCheck_stmt_index, Gen.roundTrip_stmt_index with
